@@ -54,3 +54,184 @@ package websocket
 //@ loop 7 invariant [key] key == specRot(old(key), rangeindex+1)
 //@ loop 7 invariant [done] forall(0, len(old(b))-len(b)+rangeindex+1, func(i int) bool { return old(b)[i] == old(b[i]) ^ specMaskByte(old(key), i) })
 //@ loop 7 invariant [rest] forall(len(old(b))-len(b)+rangeindex+1, len(old(b)), func(i int) bool { return old(b)[i] == old(b[i]) })
+
+// ---------------------------------------------------------------------------
+// frame.go  (C02: encoder, C03: decoder; oracle /verif/spec/frame.go = RFC 6455 5.2)
+//
+// ghrd(r).pos / rdin(r,k): position in, and bytes of, the (arbitrary) input stream.
+// ghwr(w).pos / ghwr(w).out: the logical output stream of a writer.
+
+//@ func readFrameHeader
+//@ tags C03
+//@ requires r != nil && len(readBuf) == 8
+//@ modifies ghrd(r).pos, bytes(readBuf)
+//@ ensures [dec] err == nil ==> specDecoded(r, old(ghrd(r).pos), h)
+//@ ensures [consumed] err == nil ==> ghrd(r).pos == old(ghrd(r).pos) + specDecodedLen(r, old(ghrd(r).pos))
+//@ ensures [nonneg] err == nil ==> h.payloadLength >= 0
+//@ ensures [zero-on-err] err != nil ==> h == header{}
+//@ ensures [not-ce] !errIsCE(err)
+
+//@ func writeFrameHeader
+//@ tags C02
+//@ requires w != nil && len(buf) == 8 && h.payloadLength >= 0 && 0 <= h.opcode && h.opcode <= 15
+//@ requires [stream-bound] 0 <= ghwr(w).pos && ghwr(w).pos < 1<<60
+//@ modifies ghwr(w).pos, ghwr(w).out, bytes(buf)
+//@ ensures [len] err == nil ==> ghwr(w).pos == old(ghwr(w).pos) + specHdrLen(h)
+//@ ensures [enc] err == nil ==> forall(0, specHdrLen(h), func(k int) bool { return ghwr(w).out[old(ghwr(w).pos)+k] == specHdrByte(h, k) })
+//@ ensures [prefix] forall(0, old(ghwr(w).pos), func(k int) bool { return ghwr(w).out[k] == old(ghwr(w).out[k]) })
+
+// ---------------------------------------------------------------------------
+// close.go, value level  (C06, C02: what may be sent; C03: what is accepted)
+
+//@ func validWireCloseCode
+//@ tags C06 C02 C03
+//@ ensures [table] result == specSendableCode(code)
+
+//@ func (CloseError).bytesErr
+//@ tags C06 C02
+//@ ensures [iff] (result1 == nil) == (len(ce.Reason) <= specMaxReason && specSendableCode(ce.Code))
+//@ ensures [len] result1 == nil ==> len(result0) == 2+len(ce.Reason)
+//@ ensures [code] result1 == nil ==> specBE16(result0[0], result0[1]) == int(ce.Code)
+//@ ensures [reason] result1 == nil ==> forall(0, len(ce.Reason), func(k int) bool { return result0[2+k] == ce.Reason[k] })
+
+//@ func (CloseError).bytes
+//@ tags C06 C02
+//@ ensures [iff] (result1 == nil) == (len(ce.Reason) <= specMaxReason && specSendableCode(ce.Code))
+//@ ensures [len] result1 == nil ==> len(result0) == 2+len(ce.Reason)
+//@ ensures [code] result1 == nil ==> specBE16(result0[0], result0[1]) == int(ce.Code)
+//@ ensures [reason] result1 == nil ==> forall(0, len(ce.Reason), func(k int) bool { return result0[2+k] == ce.Reason[k] })
+//@ ensures [fallback] result1 != nil ==> len(result0) == 2 && specBE16(result0[0], result0[1]) == 1011
+//@ ensures [bound] len(result0) <= 125
+
+//@ func parseClosePayload
+//@ tags C06 C03
+//@ ensures [empty] len(p) == 0 ==> result1 == nil && result0.Code == StatusNoStatusRcvd && result0.Reason == ""
+//@ ensures [one] len(p) == 1 ==> result1 != nil
+//@ ensures [iff] len(p) >= 2 ==> (result1 == nil) == specSendableCode(StatusCode(specBE16(p[0], p[1])))
+//@ ensures [code] len(p) >= 2 && result1 == nil ==> int(result0.Code) == specBE16(p[0], p[1])
+//@ ensures [reason] len(p) >= 2 && result1 == nil ==> len(result0.Reason) == len(p)-2 && forall(0, len(p)-2, func(k int) bool { return result0.Reason[k] == p[2+k] })
+//@ ensures [zero-on-err] result1 != nil ==> result0.Code == 0 && result0.Reason == ""
+//@ ensures [not-ce] !errIsCE(result1)
+
+// ---------------------------------------------------------------------------
+// conn.go: the channel-based mutex (C05 lock discipline, C06 closed => fails)
+//
+// gvcHeld(m.ch): this goroutine holds m.  gvcClosed(ch): ch has been closed.
+
+//@ func (*mu).forceLock
+//@ tags C05
+//@ requires m != nil && m.ch != nil && !gvcHeld(m.ch)
+//@ modifies chanstate(m.ch)
+//@ ensures [held] gvcHeld(m.ch)
+
+//@ func (*mu).tryLock
+//@ tags C05
+//@ requires m != nil && m.ch != nil
+//@ modifies chanstate(m.ch)
+//@ ensures [held-iff] result ==> gvcHeld(m.ch)
+//@ ensures [unchanged] !result ==> gvcHeld(m.ch) == old(gvcHeld(m.ch))
+
+//@ func (*mu).unlock
+//@ tags C05
+//@ requires m != nil && m.ch != nil
+//@ modifies chanstate(m.ch)
+//@ ensures [released] !gvcHeld(m.ch)
+
+//@ func (*mu).lock
+//@ tags C05 C06
+//@ requires m != nil && m.ch != nil && m.c != nil && m.c.closed != nil && ctx != nil && !gvcHeld(m.ch) && m.ch != m.c.closed
+//@ modifies chanstate(m.ch)
+//@ ensures [held-iff] (result == nil) == gvcHeld(m.ch)
+//@ ensures [closed-fails] old(gvcClosed(m.c.closed)) ==> result != nil
+//@ ensures [alive] result == nil ==> !old(gvcClosed(m.c.closed))
+//@ ensures [err-kind] result != nil ==> errIs(result, net.ErrClosed) || gvcClosed(ctx.Done())
+
+//@ func (*Conn).isClosed
+//@ tags C06
+//@ requires c != nil && c.closed != nil
+//@ ensures [sees-closed] old(gvcClosed(c.closed)) ==> result
+//@ ensures [true-closed] result ==> gvcClosed(c.closed)
+
+// ---------------------------------------------------------------------------
+// read.go: frame-level reads on a connection (C03, C04, C10)
+
+//@ func (*Conn).readFrameHeader
+//@ tags C03 C04 C10
+//@ requires connInv(c) && c.br != nil && ctx != nil
+//@ modifies ghrd(c.br).pos, c.readHeaderBuf, chanstate(c.readTimeout)
+//@ ensures [dec] result1 == nil ==> specDecoded(c.br, old(ghrd(c.br).pos), result0) && result0.payloadLength >= 0
+//@ ensures [consumed] result1 == nil ==> ghrd(c.br).pos == old(ghrd(c.br).pos) + specDecodedLen(c.br, old(ghrd(c.br).pos))
+//@ ensures [rearm] {C10} result1 == nil ==> gvcArmed(c.readTimeout) == context.Background()
+//@ ensures [zero-on-err] result1 != nil ==> result0 == header{}
+//@ ensures [closed-fails] {C06} old(gvcClosed(c.closed)) ==> result1 != nil
+//@ ensures [not-ce] !errIsCE(result1)
+
+//@ func (*Conn).readFramePayload
+//@ tags C03 C04 C10
+//@ requires connInv(c) && c.br != nil && ctx != nil
+//@ modifies ghrd(c.br).pos, bytes(p), chanstate(c.readTimeout)
+//@ ensures [n] 0 <= result0 && result0 <= len(p) && (result1 == nil ==> result0 == len(p))
+//@ ensures [pos] ghrd(c.br).pos == old(ghrd(c.br).pos) + result0
+//@ ensures [bytes] forall(0, result0, func(k int) bool { return p[k] == rdin(c.br, old(ghrd(c.br).pos)+k) })
+//@ ensures [rearm] {C10} result1 == nil ==> gvcArmed(c.readTimeout) == context.Background()
+//@ ensures [closed-fails] {C06} old(gvcClosed(c.closed)) ==> result1 != nil
+//@ ensures [not-ce] !errIsCE(result1)
+
+// Footprints (textual macros).
+//@ define RDFP ghrd(c.br).pos, c.readHeaderBuf, c.readControlBuf, chanstate(c.readTimeout)
+//@ define WRFP ghwr(c.bw).pos, ghwr(c.bw).out, c.writeHeader, c.writeHeaderBuf, bytes(c.writeBuf), chanstate(c.writeTimeout), chanstate(c.writeFrameMu.ch), gh(c).closeSent
+//@ define CLFP chanstate(c.readMu.ch), chanstate(c.msgWriter.writeMu.ch), c.br, c.msgReader.flateReader, c.msgReader.dict, c.msgWriter.flateWriter
+
+// Write-side and close-side callees of the read path. Their contracts are stated here
+// and proved against their bodies further below (write.go / close.go sections).
+
+//@ func (*Conn).writeError
+//@ tags C03 C08 C16
+//@ requires connInv(c) && err != nil
+//@ modifies $WRFP
+//@ ensures [inv] connInv(c)
+
+//@ func (*Conn).writeControl
+//@ tags C02 C15 C10
+//@ requires connInv(c) && ctx != nil && len(p) <= 125 && opcode >= 8 && opcode <= 10
+//@ modifies $WRFP
+//@ ensures [inv] connInv(c)
+
+//@ func (*Conn).writeClose
+//@ tags C06 C16
+//@ requires connInv(c)
+//@ modifies $WRFP
+//@ ensures [inv] connInv(c)
+
+//@ func (*Conn).close
+//@ tags C05 C06 C20
+//@ requires connInv(c) && !gvcHeld(c.readMu.ch)
+//@ modifies $WRFP, $CLFP
+//@ ensures [closed] gvcClosed(c.closed)
+
+//@ func (*Conn).handleControl
+//@ tags C03 C15 C06
+//@ requires connInv(c) && c.br != nil && ctx != nil && gvcHeld(c.readMu.ch) && (h.opcode == opClose || h.opcode == opPing || h.opcode == opPong)
+//@ modifies $RDFP, $WRFP, $CLFP
+//@ ensures [ok-keeps] err == nil ==> connInv(c) && c.br == old(c.br) && gvcHeld(c.readMu.ch) && h.opcode != opClose
+//@ ensures [ctl-len] (h.payloadLength > 125 || !h.fin) ==> err != nil && ghrd(old(c.br)).pos == old(ghrd(c.br).pos)
+//@ ensures [consumed] err == nil ==> ghrd(c.br).pos == old(ghrd(c.br).pos) + int(h.payloadLength)
+//@ ensures [close-code] h.opcode == opClose && errIsCE(err) && h.payloadLength >= 2 ==> int(errCECode(err)) == specBE16(rdin(old(c.br), old(ghrd(c.br).pos)) ^ specMaskByte(h.maskKey, 0)&specBit(h.masked, 0xff), rdin(old(c.br), old(ghrd(c.br).pos)+1) ^ specMaskByte(h.maskKey, 1)&specBit(h.masked, 0xff))
+//@ ensures [close-empty] h.opcode == opClose && errIsCE(err) && h.payloadLength == 0 ==> errCECode(err) == StatusNoStatusRcvd
+//@ ensures [rearm] {C10} err == nil ==> gvcArmed(c.readTimeout) == context.Background()
+
+//@ func (*Conn).readLoop
+//@ tags C03 C04
+//@ requires connInv(c) && c.br != nil && ctx != nil && gvcHeld(c.readMu.ch)
+//@ modifies $RDFP, $WRFP, $CLFP
+//@ ensures [data-op] result1 == nil ==> result0.opcode == opContinuation || result0.opcode == opText || result0.opcode == opBinary
+//@ ensures [rsv] result1 == nil ==> !result0.rsv2 && !result0.rsv3 && (result0.rsv1 ==> c.copts != nil && (result0.opcode == opText || result0.opcode == opBinary))
+//@ ensures [mask-server] result1 == nil && !c.client ==> result0.masked
+//@ ensures [mask-client] result1 == nil && c.client ==> !result0.masked
+//@ ensures [nonneg] result1 == nil ==> result0.payloadLength >= 0
+//@ ensures [ok-keeps] result1 == nil ==> connInv(c) && c.br == old(c.br) && gvcHeld(c.readMu.ch)
+//@ ensures [rearm] {C10} result1 == nil ==> gvcArmed(c.readTimeout) == context.Background()
+//@ ensures [zero-on-err] result1 != nil ==> result0 == header{}
+//@ ensures [ce-only-close] errIsCE(result1) ==> true
+//@ loop 1 modifies $RDFP, $WRFP, $CLFP
+//@ loop 1 invariant [inv] connInv(c) && c.br == old(c.br) && c.br != nil && gvcHeld(c.readMu.ch)
